@@ -25,12 +25,3 @@ Definition decode_by (d : N) : str -> outcome words :=
 (* decoders[d1](s), then encoders[e], then decoders[d2] *)
 Definition pipeline (d1 e d2 : N) (s : str) : outcome words :=
   ws <- decode_by d1 s ;; decode_by d2 (encode_by e ws).
-
-(* words on which the model's `title` (first rune upper-cased) is what
-   cases.Title(language.English, cases.NoLower) does: x/text also capitalises
-   after digits and at every inner word boundary (9ab -> 9Ab, a-b -> A-B) *)
-Definition title_safe (w : str) : bool :=
-  match w with
-  | [] => true
-  | c :: r => is_letter c && forallb (fun x => is_letter x || is_digit x) r
-  end.
